@@ -23,7 +23,7 @@ sys.path.insert(0, HERE)
 
 import defs as D          # noqa: E402
 import t12                # noqa: E402
-from props import PROPS, ALLOWED_AXIOMS, TRUSTED_BASE, ALL_REGIONS   # noqa: E402
+from props import PROPS, ALLOWED_AXIOMS, TRUSTED_BASE, ALL_REGIONS, fe_relevant, t3_relevant   # noqa: E402
 
 REPO = os.environ.get('VERIF_REPO', '/repo')
 WORK = os.path.join(VERIF, '.work')
@@ -251,7 +251,7 @@ def prepare(tier, seed):
                 if r['status'] != 'same':
                     c = by_id[r['id']]
                     diffs.append({'id': r['id'], 'stream': r['stream'], 'feature': bool(r['feature']), 'kind': r['kind'],
-                                  'region': r['region'], 'at': r['line'], 'model': r['model'], 'impl': r['impl'],
+                                  'region': r['region'], 'at': r['line'], 'model': r['model'], 'impl': r['impl'], 'fe_parts': r.get('fe_parts'),
                                   'text': c['text'], 'prefix': D.to_prefix(c['def']), 'verdict': r['verdict']})
             samples = []
             for r in res[:: max(1, len(res) // 6)][:6]:
@@ -339,7 +339,8 @@ def run_check(pid, tier):
     if not prep['smx_build_ok']:
         violations.append(({'property': pid, 'broken': 'tie', 'tie': 'smx build', 'detail': prep['errors']}, False))
     elif tie is not None:
-        rel = [d for d in tie['diffs'] if d['region'] in cfg['regions']]
+        rel = [d for d in tie['diffs'] if (d['region'] in cfg['regions'] and d['kind'] == 'T2') or
+               (d['kind'] == 'T1' and 'FE' in cfg['regions'] + ['FE'] and fe_relevant(pid, d))]
         if rel:
             rel.sort(key=lambda d: len(d['text']))
             d = rel[0]
@@ -365,7 +366,7 @@ def run_check(pid, tier):
                                         'replay': f'./check {pid} --replay <this file>'}, True))
                 elif f['property'] == 'HARNESS':
                     violations.append(({'property': pid, 'broken': 'tie', 'tie': 'T3 harness output', 'what': f['what']}, False))
-            t3_rel = [d for d in t3r['model_diffs'] if d['family'] in cfg['t3']]
+            t3_rel = [d for d in t3r['model_diffs'] if t3_relevant(pid, d)]
             if t3_rel:
                 d = t3_rel[0]
                 violations.append(({'property': pid, 'broken': 'tie', 'tie': f"T3 family {d['family']} (implementation vs model)",
